@@ -27,7 +27,8 @@ STRATA = [
     ("planted-unique", 300, 6000),
     ("anonymous", 200, 4000),
 ]
-REQUIRED_EVENTS = {"any": ["enc.cnf-captured", "enc.modelset-compared", "enc.exactly-one-checked", "enc.second-encoding-compared"]}
+REQUIRED_EVENTS = {"any": ["enc.cnf-captured", "enc.modelset-compared", "enc.exactly-one-checked", "enc.second-encoding-compared",
+                           "enc.extended-model-compared"]}
 
 _cp = _enc = None
 _rec = {}
@@ -100,7 +101,23 @@ def gen(stratum, rng, tier):
     else:
         raise ValueError(stratum)
     spec["vars"] = cpgen._shrink_domains(spec["vars"])
-    return {"spec": spec}
+    case = {"spec": spec}
+    if rng.random() < 0.35 and len(spec["vars"]) <= 4:
+        nv = len(spec["vars"])
+        lb = rng.choice([0, 0, 1, -1])
+        newvar = ("w_new", lb, lb + rng.randint(0, 2))
+        j = rng.randrange(nv)
+        r = rng.random()
+        if r < 0.4:
+            con = ("rel", rng.choice(["eq", "ne"]), V(nv), V(j))
+        elif r < 0.7:
+            con = ("sum_le", [j, nv, rng.randrange(nv)], spec["vars"][j][2] + lb + 1)
+        elif r < 0.85:
+            con = ("all_different", [j, nv])
+        else:
+            con = ("rel", "eq", ("add", V(nv), V(j)), C(spec["vars"][j][1] + lb + rng.randint(0, 2)))
+        case["extend"] = {"vars": [newvar], "cons": [con]}
+    return case
 
 
 def _encode(model):
@@ -189,6 +206,20 @@ def run(case, obs):
     if not obs.violations:
         _compare(spec, model, xs, S, named, obs, "second encoding of the same model")
         obs.event("enc.second-encoding-compared")
+    ext = case.get("extend")
+    if ext and not obs.violations:
+        # the model is extended after it has been encoded (and "solved") twice: new variable, new constraint, and
+        # the third encoding must again have exactly the models of the extended CP problem
+        try:
+            spec3 = ocp.extend(spec, model, xs, ext["vars"], ext["cons"])
+        except ocp.Unbuildable:
+            return
+        if ocp.domain_product_size(spec3) > 8192:
+            return
+        S3 = ocp.solution_set(spec3)
+        named3 = [i for i, v in enumerate(spec3["vars"]) if v[0] is not None]
+        _compare(spec3, model, xs, S3, named3, obs, "encoding after extending the solved model")
+        obs.event("enc.extended-model-compared")
 
 
 def shrink(case):
@@ -196,10 +227,10 @@ def shrink(case):
     cons = spec["cons"]
     for i in range(len(cons)):
         if len(cons) > 1:
-            yield {"spec": dict(spec, cons=cons[:i] + cons[i + 1:])}
+            yield dict(case, spec=dict(spec, cons=cons[:i] + cons[i + 1:]))
     for i, (name, lb, ub) in enumerate(spec["vars"]):
         if ub > lb:
             for nv in ((name, lb + 1, ub), (name, lb, ub - 1)):
                 vs = list(spec["vars"])
                 vs[i] = nv
-                yield {"spec": dict(spec, vars=vs)}
+                yield dict(case, spec=dict(spec, vars=vs))
